@@ -9,7 +9,6 @@ import (
 )
 
 type (
-	Pool      = sync.Pool
 	Once      = sync.Once
 	Locker    = sync.Locker
 	WaitGroup = sync.WaitGroup
@@ -138,4 +137,36 @@ func (m *RWMutex) RUnlock() {
 	m.readers--
 	vsched.Hold(-1)
 	vsched.Point(vsched.KUnlock, "", nil)
+}
+
+// Pool is sync.Pool; under the controlled scheduler it is a plain LIFO free list (sync.Pool's per-P caches and
+// GC-driven eviction are nondeterministic, which would make schedules irreproducible).
+type Pool struct {
+	New   func() any
+	real  sync.Pool
+	items []any
+}
+
+func (p *Pool) Get() any {
+	if !vsched.Controlled() {
+		p.real.New = p.New
+		return p.real.Get()
+	}
+	if n := len(p.items); n > 0 {
+		x := p.items[n-1]
+		p.items = p.items[:n-1]
+		return x
+	}
+	if p.New != nil {
+		return p.New()
+	}
+	return nil
+}
+
+func (p *Pool) Put(x any) {
+	if !vsched.Controlled() {
+		p.real.Put(x)
+		return
+	}
+	p.items = append(p.items, x)
 }
